@@ -11,6 +11,9 @@ from . import sym
 from .sym import Expr
 
 
+ARRAYS = {}   # uid -> array kept for reads at computed positions (see prims.p_pad)
+
+
 class NotEvaluable(Exception):
     pass
 
@@ -273,6 +276,21 @@ def ev(e: Expr, pt: Point):
         bl = getattr(pt, "blocks", None)
         if bl and e[1] in bl and len(e[3]) == 2 and all(isinstance(x, Expr) for x in e[3]):
             return eval_block_entry(bl[e[1]], int(round(ev(e[3][0], pt))), int(round(ev(e[3][1], pt))), pt)
+        A = ARRAYS.get(e[1])
+        if A is not None and len(e[3]) == A.ndim and all(isinstance(x, Expr) for x in e[3]):
+            # an array kept under its own position variables, read at computed positions
+            idx = [int(round(ev(x, pt))) for x in e[3]]
+            saved = dict(pt.ivs)
+            try:
+                for (sp_, iv_), k_ in zip(A.axes, idx):
+                    n_ = int(round(ev(sp_.size, pt)))
+                    if not 0 <= k_ < n_:
+                        raise NotEvaluable(f"read at position {k_} of an axis of {n_} entries")
+                    pt.ivs[iv_] = k_
+                return ev(A.elem, pt)
+            finally:
+                pt.ivs.clear()
+                pt.ivs.update(saved)
         return ev(e[2], pt)
     if t == "opq":
         if e[1].startswith("unmodelled"):
